@@ -135,8 +135,23 @@ def handleLegacy (auto : Bool) (args : List String) : Verdict :=
         let (mlo, mhi) := if auto then autoRange vs dblMax (-dblMax) else (mn, mx)
         let mpdf := legacyPdf mlo mhi n per vs
         let rangeOk := if auto then lo == listMin vs && hi == listMax vs else lo == mn && hi == mx
-        { agree := mlo == lo && mhi == hi && mpdf == pdf, propOk := rangeOk,
-          msg := if rangeOk then s!"model range {mlo} {mhi} pdf {mpdf}" else s!"automatic range [{lo},{hi}] does not cover exactly the data [{listMin vs},{listMax vs}]",
+        -- periodic mode, stated without the code's index arithmetic: the first and the last bin are the same point, so the range repeats with
+        -- its length `max - min`; a value is moved by whole lengths into `[min - step/2, max - step/2)` and counted at the nearest centre
+        let specPdf : List Rat :=
+          let len := mhi - mlo
+          let iv := len / ((n : Rat) - 1)
+          let raw := vs.foldl (fun acc v =>
+            let k := ((v - (mlo - iv / 2)) / len).floor
+            let i := rawIndex mlo iv (v - (k : Rat) * len)
+            if 0 ≤ i && i < (n : Int) then addAt acc i.toNat 1 else acc) (List.replicate n 0)
+          let s := raw.headD 0 + raw.getLastD 0
+          (raw.set 0 s).set (n - 1) s
+        let wrapOk := !per || n < 2 || mhi ≤ mlo || pdf == specPdf
+        { agree := mlo == lo && mhi == hi && mpdf == pdf, propOk := rangeOk && wrapOk,
+          msg := if !rangeOk then s!"automatic range [{lo},{hi}] does not cover exactly the data [{listMin vs},{listMax vs}]"
+                 else if !wrapOk && mpdf == pdf then s!"LEGACY-PERIODIC-WRAP-MOD-N-BINS the bin number of a value outside [{mlo},{mhi}] is reduced modulo n = {n} bins although first and last bin are the same point (period n - 1): bins {pdf}, expected {specPdf}"
+                 else if !wrapOk then s!"LEGACY-PERIODIC-WRAP values outside [{mlo},{mhi}] are not wrapped modulo the length of the range: bins {pdf}, expected {specPdf}"
+                 else s!"model range {mlo} {mhi} pdf {mpdf}",
           tag := (if auto then "legacy:auto" else "legacy:fixed") ++ (if vs.all (· < 0) then ":all-negative" else if vs.all (· > 0) then ":all-positive" else ":mixed") ++ (if per then ":periodic" else "") }
       | _ => bad "legacy outputs"
     | none => bad "legacy values"
